@@ -24,7 +24,7 @@ func init() {
 			"the with-expressions of the sandboxed include itself are written in the outer template and evaluated with outer permissions",
 			"macro calls count as function calls for the policy check (observed behaviour), so macro names used inside the sandbox are allowed functions",
 		},
-		quick: 22*10*2*4*2 + 6000, thorough: 22*10*2*4*2 + 100000, minQuick: 3000, minThorough: 30000,
+		quick: 22*10*2*4*2 + 24000, thorough: 22*10*2*4*2 + 100000, minQuick: 3000, minThorough: 30000,
 	}})
 }
 
@@ -146,6 +146,35 @@ func c06Build(route int, frag string) map[string]string {
 	return t
 }
 
+// c06Prefix puts up to two more hops between the sandboxed include and the route's entry template 'sb': however the
+// sandboxed template reaches the construct, the policy applies.
+func c06Prefix(t map[string]string, hops []int) map[string]string {
+	next := "sb"
+	for i := len(hops) - 1; i >= 0; i-- {
+		name := fmt.Sprintf("p%d", i)
+		switch hops[i] {
+		case 0:
+			t[name] = fmt.Sprintf("H%d:{%% include '%s' %%}", i, next)
+		case 1:
+			t[name] = fmt.Sprintf("H%d:{%% include '%s' with {'v': v, 'xs': xs, 'yes': yes, 'no': no} only %%}", i, next)
+		case 2:
+			t[name] = fmt.Sprintf("H%d:{%% include '%s' with {'extra%d': 1} %%}", i, next, i)
+		case 3:
+			t[name] = fmt.Sprintf("H%d:{%% import 'pm%d' as pmod %%}{{ pmod.go(v, xs, yes) }}", i, i)
+			t[fmt.Sprintf("pm%d", i)] = fmt.Sprintf("{%% macro go(v, xs, yes) %%}G:{%% include '%s' %%}{%% endmacro %%}", next)
+		case 4:
+			t[name] = fmt.Sprintf("H%d:{%% from 'pm%d' import go as hop %%}{{ hop(v, xs, yes) }}", i, i)
+			t[fmt.Sprintf("pm%d", i)] = fmt.Sprintf("{%% macro go(v, xs, yes) %%}G:{%% include '%s' %%}{%% endmacro %%}", next)
+		default:
+			t[name] = fmt.Sprintf("{%% extends 'pl%d' %%}{%% block hop%d %%}B:{%% include '%s' %%}{%% endblock %%}", i, i, next)
+			t[fmt.Sprintf("pl%d", i)] = fmt.Sprintf("PL%d[{%% block hop%d %%}{%% endblock %%}]", i, i)
+		}
+		next = name
+	}
+	t["main"] = "OUT[{% include '" + next + "' sandboxed %}]"
+	return t
+}
+
 func (p *c06) engine(spy *c06Spy, pol twig.SecurityPolicy, forbidName string) func(e *twig.Engine) {
 	return func(e *twig.Engine) {
 		mkF := func(name string) twig.FilterFunc {
@@ -220,8 +249,19 @@ func (p *c06) Run(rec *core.Recorder, seed uint64, idx int, tier string) {
 		frag = frag + frag
 	}
 	srcs := c06Build(route, frag)
+	if idx >= nGrid {
+		r2 := core.NewRand("C06hops", seed, idx)
+		hops := make([]int, r2.Intn(3))
+		for i := range hops {
+			hops[i] = r2.Intn(6)
+		}
+		if len(hops) > 0 {
+			srcs = c06Prefix(srcs, hops)
+			rec.Count(fmt.Sprintf("prefix-hops:%d", len(hops)), 1)
+		}
+	}
 	allowedF := map[string]bool{"okf": true, "default": true, "length": true, "f1": true, "f2": true, "upper": true, "merge": true, "e": true}
-	allowedG := map[string]bool{"okg": true, "g1": true, "g2": true, "range": true, "max": true, "cycle": true, "pm": true, "mac": true, "parent": true}
+	allowedG := map[string]bool{"okg": true, "g1": true, "g2": true, "range": true, "max": true, "cycle": true, "pm": true, "mac": true, "parent": true, "go": true, "hop": true}
 	mkPolicy := func(forbid bool) twig.SecurityPolicy {
 		f, g := map[string]bool{}, map[string]bool{}
 		for k, v := range allowedF {
